@@ -50,6 +50,14 @@ func isOneOf [C04, C14]
 
 // INDUCTION HYPOTHESIS for sub-expressions: Evaluate returns the visitor's result register; errors in the operand
 // only ever set the Faulty flag
+// speculative ("silent") evaluation leaves no trace in the failure state: the flag, the panic mode and the handler are
+// what they were - so a module is faulty afterwards exactly if it was before
+func (*Typechecker).EvaluateSilent [C07]
+  requires t != nil && t.Module != nil && t.Module.Ast != nil && t.panicMode != nil
+  ensures t.Module.Ast.Faulty == old(t.Module.Ast.Faulty)
+  ensures *t.panicMode == old(*t.panicMode)
+  ensures t.ErrorHandler == old(t.ErrorHandler)
+
 func (*Typechecker).Evaluate
   trusted
   modifies *
